@@ -150,7 +150,7 @@ class C12Oracle(Oracle):
             if mode not in SPACE_MODES:
                 exp_raise = exp_raise or ValueError("bad option")
             span = (lo, hi + d)
-            need_valid = recv_valid and lo <= s <= hi and d > 0
+            need_valid = recv_valid and d > 0  # wherever the insertion point lies
         elif name == "tg.editTimestamps":
             off = a[0]
             mode = a[1] if len(a) > 1 else k.get("reportingMode", "warning")
